@@ -38,8 +38,8 @@ VAULT_VIEWS = [
     vx('views', [VEX + f for f in ('max_redeem', 'max_withdraw', 'max_deposit', 'max_mint', 'preview_deposit', 'preview_mint', 'preview_withdraw', 'preview_redeem',
                                    'convert_to_shares', 'convert_to_assets', 'total_assets', 'query_asset')],
        VAULT_B + '; one of the 12 read-only entry points, compared with the library Vault::* answer in the same state'),
-    vx('token_views', [VEX + 'balance', VEX + 'total_supply', VEX + 'allowance', VEX + 'decimals', V + 'decimals', V + 'get_underlying_asset_decimals'],
-       VAULT_B + '; asset decimals full u32'),
+    vx('token_views', [VEX + 'balance', VEX + 'total_supply', VEX + 'allowance', VEX + 'name', VEX + 'symbol', VEX + 'decimals', V + 'decimals', V + 'get_underlying_asset_decimals'],
+       VAULT_B + '; asset decimals full u32; Meta entry absent / present with any decimals'),
     vx('constructor', [VEX + '__constructor', V + 'set_asset', V + 'set_decimals_offset', V + 'decimals', 'fungible::Base::set_metadata'],
        VAULT_B + '; Meta entry absent/present, constructor offset full u32, asset any of 5 addresses; then a second construction with any arguments'),
 ]
